@@ -220,6 +220,16 @@ class Machine:
             raise Unknown('starred')
         if isinstance(e, ast.UnaryOp):
             v = self.ev(e.operand)
+            if isinstance(v, Sym) and getattr(v, 'cls', None):
+                # an object of a class of the program: its own method
+                name = {ast.Invert: '__invert__', ast.USub: '__neg__',
+                        ast.UAdd: '__pos__'}.get(type(e.op))
+                if name is None:
+                    return not self.truth(v)
+                meth = self.method_of(v, name)
+                if meth is None:
+                    raise Unknown(au.src(e))
+                return self.apply_callable(meth, [v])
             if isinstance(e.op, ast.Not):
                 if isinstance(v, Sym):
                     raise Unknown(au.src(e))
@@ -282,17 +292,18 @@ class Machine:
                 r = True
                 for v in e.values:
                     r = self.ev(v)
-                    if not r:
+                    if not self.truth(r):
                         return r
                 return r
             r = False
             for v in e.values:
                 r = self.ev(v)
-                if r:
+                if self.truth(r):
                     return r
             return r
         if isinstance(e, ast.IfExp):
-            return self.ev(e.body) if self.ev(e.test) else self.ev(e.orelse)
+            return self.ev(e.body) if self.truth(
+                self.ev(e.test)) else self.ev(e.orelse)
         if isinstance(e, ast.Compare):
             left = self.ev(e.left)
             for op, c in zip(e.ops, e.comparators):
@@ -395,7 +406,7 @@ class Machine:
             g = e.generators[k]
             for item in self.iterate(self.ev(g.iter)):
                 self.store(g.target, item)
-                if all(self.ev(c) for c in g.ifs):
+                if all(self.truth(self.ev(c)) for c in g.ifs):
                     rec(k + 1)
         try:
             rec(0)
@@ -429,7 +440,7 @@ class Machine:
             for item in items:
                 sub.steps = 0
                 sub.store(g.target, item)
-                if all(sub.ev(c) for c in g.ifs):
+                if all(sub.truth(sub.ev(c)) for c in g.ifs):
                     if k + 1 == len(e.generators):
                         v = sub.ev(e.elt)
                         for key, val in sub.env.items():
@@ -694,6 +705,36 @@ class Machine:
             raise Raised('TypeError')
         return obj
 
+    def _opaque(self, e):
+        raise Unknown(au.src(e))
+
+    def truth(self, v):
+        """Truth value as `if` takes it: an object of a class of the
+        program is asked through `__bool__` / `__len__`."""
+        if isinstance(v, Sym) and getattr(v, 'cls', None):
+            meth = self.method_of(v, '__bool__')
+            if meth is not None:
+                return bool(self.apply_callable(meth, [v]))
+            meth = self.method_of(v, '__len__')
+            if meth is not None:
+                return self.apply_callable(meth, [v]) != 0
+            if v.cls[1].bases and not all(
+                    au.src(b) == 'object' for b in v.cls[1].bases):
+                # (a base class may define either)
+                for b in v.cls[1].bases:
+                    bc = self.program_class(b)
+                    if bc is None:
+                        raise Unknown('truth value of an object whose '
+                                      'base class is not in the program')
+                    for st in bc[1].body:
+                        if isinstance(st, ast.FunctionDef) and st.name in (
+                                '__bool__', '__len__'):
+                            raise Unknown('truth value by a base class')
+                    if bc[1].bases:
+                        raise Unknown('truth value by a base class')
+            return True
+        return bool(v)
+
     def program_class(self, expr):
         """The class of the program that `expr` names, or None."""
         try:
@@ -856,6 +897,29 @@ class Machine:
                 if e.func.id == 'map':
                     return [self.apply_callable(f, [x]) for x in xs]
                 return [x for x in xs if self.apply_callable(f, [x])]
+            if e.func.id in self.SAFE and any(
+                    isinstance(a, Sym) for a in args):
+                # a built-in applied to an object: through the method of
+                # its class, or not at all
+                a0 = args[0]
+                name = {'int': '__int__', 'str': '__str__',
+                        'abs': '__abs__', 'iter': '__iter__'}.get(
+                            e.func.id)
+                if e.func.id == 'bool' and len(args) == 1:
+                    return self.truth(a0) if getattr(
+                        a0, 'cls', None) else self._opaque(e)
+                meth = self.method_of(a0, name) if (
+                    name and len(args) == 1 and isinstance(a0, Sym)) \
+                    else None
+                if meth is not None:
+                    return self.apply_callable(meth, [a0])
+                if e.func.id in ('list', 'tuple', 'set', 'sorted',
+                                 'enumerate', 'sum', 'any', 'all', 'min',
+                                 'max', 'frozenset', 'reversed') and \
+                        len(args) == 1 and not kw:
+                    args = [self.iterate(a0)]
+                elif e.func.id not in ('dict', 'zip', 'len', 'next', 'str'):
+                    raise Unknown(au.src(e))
             if e.func.id in self.SAFE:
                 try:
                     if 'key' in kw and isinstance(kw['key'], tuple):
@@ -1010,7 +1074,7 @@ class Machine:
             self.store(s.target, self.ev(load))
             return
         if isinstance(s, ast.If):
-            self.run(s.body if self.ev(s.test) else s.orelse)
+            self.run(s.body if self.truth(self.ev(s.test)) else s.orelse)
             return
         if isinstance(s, (ast.FunctionDef,)):
             self.env[s.name] = ('closure', s, self.resolver, self.env)
@@ -1043,7 +1107,7 @@ class Machine:
         if isinstance(s, ast.While):
             k = 0
             broke = False
-            while self.ev(s.test):
+            while self.truth(self.ev(s.test)):
                 k += 1
                 if k > 2000:
                     raise Unknown('loop limit')
@@ -1196,7 +1260,7 @@ class Machine:
                 raise Raised(self.handling.name, s)
             raise Raised(au.raised_name(s) or '?', s)
         if isinstance(s, ast.Assert):
-            if not self.ev(s.test):
+            if not self.truth(self.ev(s.test)):
                 raise Raised('AssertionError', s)
             return
         if isinstance(s, ast.Match):
